@@ -176,6 +176,27 @@ def run(res, tier, seed):
             open(os.path.join(cdir, "in.xml"), "w").write(c02.doc_xml(docs[d]))
             cases.append({"id": k, "dir": cdir, "trace": "none", "select": False})
             metas.append(("count", d, ins, fmt, order)); k += 1
+    # the DEFAULT count pattern (7.7: nodes with the same node type and EXPANDED name as the current node) where the same QName text
+    # means different names: one prefix bound to different namespaces in different places, and different prefixes for one namespace
+    U, V = "urn:u", "urn:v"
+    E_, A_ = xdm.E, xdm.A
+    nsd = xdm.R(E_("r",
+                   E_("i", p="p", u=U, nsd=[["p", U]]), E_("i", p="p", u=V, nsd=[["p", V]]), E_("i", p="p", u=U, nsd=[["p", U]], a=[A_("k", "1", p="p", u=U)]),
+                   E_("x", E_("i", p="p", u=V), E_("i", p="q", u=V, nsd=[["q", V]], a=[A_("k", "2", p="p", u=V)]), E_("i", p="p", u=V), nsd=[["p", V]]),
+                   E_("i", u=U, nsd=[["", U]]), E_("i", p="p", u=U, nsd=[["p", U]]), E_("i")))
+    docs.append(nsd); flats.append(xdm.flatten(nsd, c02.ID_ATTRS))
+    dn = len(docs) - 1
+    nn = flats[dn]["n"]
+    for level in ("single", "multiple", "any"):
+        ins = {"level": level, "hasCount": False, "count": pat_pool()[0], "hasFrom": False, "from": pat_pool()[0]}
+        ids = list(range(1, nn + 1))
+        sh = list(ids); rng.shuffle(sh)
+        for order in (ids, list(reversed(ids)), sh):
+            cdir = os.path.join(wd, "case%d" % k); os.makedirs(cdir)
+            open(os.path.join(cdir, "main.xsl"), "w").write(render(ins, "1", order))
+            open(os.path.join(cdir, "in.xml"), "w").write(c02.doc_xml(nsd))
+            cases.append({"id": k, "dir": cdir, "trace": "none", "select": False})
+            metas.append(("count", dn, ins, "1", order)); k += 1
     # patterns that refer to a variable: the same instruction under changing values of $t
     tv = var("t")
     P = lambda *st, **kw: path(list(st), **kw)
